@@ -301,8 +301,11 @@ CLAIMED = {
               "the core, regions are pairwise disjoint, exactly one free space remains and the rodded bounds enclose exactly it "
               "(heights + rodded span = core length); inverted, zero-height, overlapping, out-of-core and core-filling layouts are "
               "rejected wherever they stand in the list - tied to the real check_unrodded_regions bit for bit (verdict, error kind, "
-              "rodded bounds) on generated layouts.  PARTIAL: the model is tied to the real reader by differential classification on valid "
-              "generated inputs and single-fault perturbations (28 fault classes across the input keys); independently every "
+              "rodded bounds) on generated layouts.  Fuel pellets (Model/AcceptFuel.lean, Props/C18Fuel.lean): acceptance implies the gap "
+              "that is USED (standard or legacy key) leaves room for a pellet, radial zones of positive thickness inside the "
+              "pellet, porosities and weight fractions in range, a finite positive porosity correction; tied to the real "
+              "check_fuel_model (verdict and error kind).  PARTIAL: the model is tied to the real reader by differential classification on valid "
+              "generated inputs and single-fault perturbations (32 fault classes across the input keys); independently every "
               "invalid class must end in SystemExit before any temperature is computed and every valid generated input must "
               "be set up and swept (60 planes) without exception or hang; a single-key perturbation sweep (every numeric "
               "leaf of the input incl. FuelModel / PinModel / SpacerGrid, four extreme values each) must end in a clean "
